@@ -456,6 +456,40 @@ fn run(ctx: &mut Ctx) {
             emit(ctx, cx, Spelling::Minimal, t);
         }
     }
+    // sums and differences of THREE commodities (X, Y, W; some terms zero-valued), alone, negated, scaled and as the divisor
+    // of a bare number, in every context: "a multi-commodity sum where a single amount is required" is not only a pair
+    {
+        let l3: Vec<Rc<T>> = [T::Leaf("1", "X"), T::Leaf("2", "Y"), T::Leaf("3", "W"), T::Leaf("0", "W"), T::Leaf("4", "X")].into_iter().map(Rc::new).collect();
+        let mut sums: Vec<Rc<T>> = vec![];
+        for a in &l3 {
+            for b in &l3 {
+                for c in &l3 {
+                    for o1 in ['+', '-'] {
+                        for o2 in ['+', '-'] {
+                            sums.push(Rc::new(T::Bin(o2, Rc::new(T::Bin(o1, a.clone(), b.clone())), c.clone())));
+                            sums.push(Rc::new(T::Bin(o1, a.clone(), Rc::new(T::Bin(o2, b.clone(), c.clone())))));
+                        }
+                    }
+                }
+            }
+        }
+        let two = Rc::new(T::Leaf("2", ""));
+        let six = Rc::new(T::Leaf("6", ""));
+        let mut fam: Vec<Rc<T>> = vec![];
+        for t in &sums {
+            fam.push(t.clone());
+            fam.push(Rc::new(T::Neg(t.clone())));
+            fam.push(Rc::new(T::Bin('*', t.clone(), two.clone())));
+            fam.push(Rc::new(T::Bin('*', two.clone(), t.clone())));
+            fam.push(Rc::new(T::Bin('/', six.clone(), t.clone())));
+        }
+        ctx.fact("trees_three_commodity_family", fam.len() as u64);
+        for cx in contexts {
+            for t in &fam {
+                emit(ctx, cx, Spelling::Minimal, t);
+            }
+        }
+    }
     // unary minus stacked on a negative literal (`--1 X`), every context
     fn stacked(t: &T) -> bool {
         match t {
